@@ -58,6 +58,16 @@ def _variants(c):
     out.append(("unused column removed", {"columns": used}, list(range(n))))
     extra = fr["columns"] + [dm.col("zzz_extra", "str", ["q"] * n), dm.col("aaa_extra", "float", [None] + ["1"] * (n - 1))]
     out.append(("unused columns added (one with a NaN)", {"columns": extra}, list(range(n))))
+    # unused columns that are NAMED like the functions the formula calls (C, T, center, ...), with NaNs: a
+    # callee is looked up in the environment, never among the columns, so these columns are not mentioned
+    import re as _re
+    callees = sorted(set(_re.findall(r"([A-Za-z_][A-Za-z_0-9]*)\(", c["formula"])))
+    # ... and only called: a bare `Sum` in C(f, Sum) is an ARGUMENT, looked up among the columns first
+    callees = [nm for nm in callees if not _re.search(r"(?<![A-Za-z_0-9.])" + nm + r"(?![A-Za-z_0-9(])", c["formula"])]
+    named = fr["columns"] + [dm.col(nm, "float", [None if (i + k) % 3 == 0 else str(i) for i in range(n)])
+                             for k, nm in enumerate(callees) if nm not in [col["name"] for col in fr["columns"]]]
+    if len(named) > len(fr["columns"]):
+        out.append(("unused columns named like the called functions (with NaNs)", {"columns": named}, list(range(n))))
     both = dm.select_rows({"columns": [fr["columns"][j] for j in c["colperm"]]}, perm)
     both["index"] = [idx[i] for i in perm]
     out.append(("all together", both, perm))
